@@ -19,15 +19,23 @@ TECHNIQUE = (
     "answered; it is compared with ServicesScanner.result and with the result-tagged tallies of ScanIdentifiers.  A share of the "
     "service scans runs against an ECU that silently discards under-length requests of implemented services (per session and service "
     "a minimum payload length of 2, 3 or 5 bytes, vf/ecu_models.py InProcessTransport(mute=...)) and answers longer ones normally: "
-    "for every service id the probing must go on through the lengths 1,2,3,5 until a not-supported or a meaningful answer arrives"
+    "for every service id the probing must go on through the lengths 1,2,3,5 until a not-supported or a meaningful answer arrives.  "
+    "A share of the check-session scans runs against ECUs on which the active-session identifier 0xF186 cannot be read in some "
+    "non-default sessions (ReadDataByIdentifier absent there, '22 F1 86' answered with requestOutOfRange, or not answered at all) "
+    "while it can in the default session, combined with ECU-side session drop-outs: after the ECU has accepted the re-entry the scan "
+    "of that session has to go on.  Skip maps are written in every shape of the two-dimensional grammar, including elements whose "
+    "outer part names several sessions at once, followed or preceded by elements that give single sessions further ids; what the "
+    "scanners then leave out is judged end-to-end against the map the expression denotes"
 )
 LEVEL_TEXT = (
     "Exploration: seeded virtual ECUs (p_session 0.3..1, p_service 0.1..0.6, p_identifier 0.05..0.4, with and without "
     "generalReject for handler-less services, with and without silently discarded under-length requests of implemented services) x session lists (range grammar and explicit order, incl. sessions the ECU does not "
-    "have or cannot enter) x skip maps in the two-dimensional range grammar x scan_response_ids x check-session x reset; identifier "
+    "have or cannot enter) x skip maps in the two-dimensional range grammar (single-session and multi-session elements, common ids "
+    "written once for several sessions plus per-session additions, in either order) x scan_response_ids x check-session x reset; identifier "
     "scans for services 0x22/0x27/0x2E/0x31 over ranges of 64..1024 identifiers around 0x0000, 0x007F, 0xF186, 0xFFFF with payloads, "
     "check-session intervals, skip maps, skip-not-supported; ECU-side session drop-outs (with check-session) and lost replies "
-    "(retries).  Held = on every generated scan each claim of the scanner agrees with the ECU-side log."
+    "(retries); ECUs whose session identifier 0xF186 is unreadable in some non-default sessions (service absent / requestOutOfRange / "
+    "no answer), with and without drop-outs.  Held = on every generated scan each claim of the scanner agrees with the ECU-side log."
 )
 LEVEL_NOTE = (
     "Trusted: InProcessTransport in vf/ecu_models.py, the window/probe classification of the ECU-side log in this file, gallia's "
@@ -35,7 +43,8 @@ LEVEL_NOTE = (
 )
 RULE = (
     "cases = (server seed, randomness parameters, behaviour switches, scanner kind, session list, skip map, option flags, identifier "
-    "range, scanned service, payload, check-session interval, drop-out / loss positions, minimum-length map of the ECU, run mode); non-trivial = the ECU answers at "
+    "range, scanned service, payload, check-session interval, drop-out / loss positions, minimum-length map of the ECU, sessions without a readable "
+    "session identifier, run mode); non-trivial = the ECU answers at "
     "least one probe with something else than serviceNotSupported (services) resp. at least one identifier positively or the scan "
     "covers more than one session (identifiers); distinct = distinct case tuples; distinct_traces = distinct ECU-side logs"
 )
@@ -48,6 +57,11 @@ ASSUMPTIONS = [
     "min-length ECUs never discard the scanner's own session handling (services 0x10, 0x11, 0x22, 0x3E are exempt); a discarded request has no effect on the ECU state; "
     "when the probing of a service id stops early, a fresh copy of the model put into that session is asked the remaining probe lengths only to NAME the violation "
     "(missed-service vs probe-lengths-not-exhausted), both are violations",
+    "ECUs with an unreadable session identifier keep it readable in the default session (where a drop-out leaves them); in the sessions concerned only the exact "
+    "request '22 F1 86' is affected (or service 0x22 is absent from the model of that session, which then is the ground truth for 'implements'); identifier scans "
+    "of service 0x22 are run against fully readable ECUs only (probe of 0xF186 and session read are the same request)",
+    "a skip expression that the option parser reads differently from the documented grammar is reported as such AND the scan is still judged against the map "
+    "the expression denotes (what the skip option names), so a wrongly widened or narrowed skip shows up as not-probed / probed-excluded service ids or identifiers",
 ]
 EXHAUSTIVE = {"quick": False, "thorough": False}
 EXHAUSTIVE_NOTE = ""
@@ -90,6 +104,14 @@ def required_reach(tier: str) -> dict[str, int]:
         "identifiers.boundary.7f-clamp": 5, "identifiers.payload": 20, "identifiers.retry": 5, "identifiers.dropout-recovered": 3,
         "identifiers.skip-not-supported-stop": 3, "identifiers.sessions-none": 5, "identifiers.full-run": 10,
         "identifiers.tally-checked": 120,
+        # skip expressions with an element naming several sessions at once; sessions introduced by such an element scanned while a
+        # later element gives a session named with them further ids (which this session must still have probed)
+        "services.skip-multi-session-element": 40, "services.skip-multi-session-element-then-additions.scanned": 20,
+        "identifiers.skip-multi-session-element": 30, "identifiers.skip-multi-session-element-then-additions.scanned": 10,
+        # ECU lost the scanned session, told so in the default session, accepted the re-entry, and cannot tell its session there
+        # (by kind of non-answer: nrc-7f service absent in that session, nrc-31, silence)
+        "services.dropout-recovered.session-unreadable": 8, "#services.dropout-recovered.session-unreadable.": 3,
+        "identifiers.dropout-recovered.session-unreadable": 5, "#identifiers.dropout-recovered.session-unreadable.": 2,
     }
 
 
@@ -101,7 +123,68 @@ def make_server(case: dict[str, Any]) -> Any:
     beh = UDSServer.Behavior(**{k: False for k in case.get("behavior_off", [])})
     srv = RandomUDSServer(case["server_seed"], rp, beh)
     srv.randomize()
+    apply_session_read(srv, case.get("session_read") or {})
     return srv
+
+
+SESSION_READ = b"\x22\xf1\x86"
+SESSION_READ_MODES = ("absent", "nrc-31", "silent")
+
+
+def apply_session_read(srv: Any, modes: dict[str, str]) -> None:
+    """ECUs on which the active-session identifier 0xF186 cannot be read in some sessions (the identifier is optional):
+    'absent'  ReadDataByIdentifier is not implemented in that session at all (removed from the model; the ECU's own rule chain
+              answers serviceNotSupportedInActiveSession),
+    'nrc-31'  the request '22 F1 86' is answered with requestOutOfRange there,
+    'silent'  the request '22 F1 86' is not answered there.
+    Every other request, and every other session, is handled by the unchanged model."""
+    from gallia.services.uds.core import service
+    from gallia.services.uds.core.constants import UDSErrorCodes, UDSIsoServices
+
+    if not modes:
+        return
+    by_session = {int(k): v for k, v in modes.items()}
+    for sess, mode in by_session.items():
+        if mode == "absent" and sess in srv.services:
+            srv.services[sess].pop(UDSIsoServices.ReadDataByIdentifier, None)
+    def is_session_read(request: Any) -> bool:
+        return isinstance(request, service.ReadDataByIdentifierRequest) and list(request.data_identifiers) == [0xF186]
+
+    refuse = {k for k, v in by_session.items() if v == "nrc-31"}
+    silent = {k for k, v in by_session.items() if v == "silent"}
+    if refuse:
+        inner_read = srv.default_response_if_session_read
+
+        def session_read(request: Any) -> Any:
+            if srv.state.session in refuse and is_session_read(request):
+                return service.NegativeResponse(request.service_id, UDSErrorCodes.requestOutOfRange)
+            return inner_read(request)
+
+        srv.default_response_if_session_read = session_read
+    if silent:
+        inner_respond = srv.respond
+
+        async def respond(request: Any) -> Any:
+            if srv.state.session in silent and is_session_read(request):
+                return None
+            return await inner_respond(request)
+
+        srv.respond = respond
+
+
+def session_read_answerable(case: dict[str, Any], model: dict[int, set[int]], session: int) -> bool:
+    """does the ECU model tell its session when asked with '22 F1 86' while it is in `session`"""
+    return 0x22 in model.get(session, set()) and str(session) not in (case.get("session_read") or {})
+
+
+def gen_session_read(rng: Any, srv: Any) -> dict[str, str]:
+    """a non-empty random subset of the non-default sessions of the ECU in which the session cannot be read (the default session,
+    where the ECU ends up after losing its session, stays readable)"""
+    cand = [x for x in sorted(model_of(srv)) if x != 1]
+    if not cand:
+        return {}
+    chosen = [x for x in cand if rng.random() < 0.7] or [rng.choice(cand)]
+    return {str(x): rng.choice(SESSION_READ_MODES) for x in chosen}
 
 
 def model_of(srv: Any) -> dict[int, set[int]]:
@@ -112,24 +195,116 @@ def transitions_of(srv: Any) -> dict[int, list[int]]:
     return {int(s): sorted(int(x) for x in (d.get(0x10) or [])) for s, d in srv.services.items()}
 
 
-def render_skip(rng: Any, skip: dict[int, list[int] | None]) -> list[str]:
-    """the skip map in the two-dimensional grammar '<sessions>:<ids>' / '<sessions>' (whole session)"""
+def render_skip(rng: Any, skip: dict[int, list[int] | None], group: tuple[list[int], list[int]] | None = None) -> list[str]:
+    """the skip map in the two-dimensional grammar '<sessions>:<ids>' / '<sessions>' (whole session).
+    group = (sessions, ids): ids that all these sessions have in common are written ONCE, as elements whose outer part is a range /
+    enumeration of the sessions ('1-2:0x10', '0x2,5:16-31'); what a session skips beyond that follows in elements of its own."""
     from vf import ecu_models as em
 
-    items: list[str] = []
     f = lambda x: hex(x) if rng.random() < 0.5 else str(x)  # noqa: E731
+    outer = lambda ss: ",".join(em.render_ranges(rng, ss))  # noqa: E731
+    head: list[str] = []
+    items: list[str] = []
+    shared: set[int] = set()
+    members: set[int] = set()
+    if group is not None:
+        members, shared = set(group[0]), set(group[1])
+        for part in em.render_ranges(rng, sorted(shared)):
+            head.append(f"{outer(sorted(members))}:{part}")
+    whole = [s for s, ids in skip.items() if ids is None]
+    if len(whole) > 1 and rng.random() < 0.5:  # several whole sessions named by one outer expression
+        items.append(outer(whole))
+        whole = [s for s in whole if rng.random() < 0.3]
+    for s in whole:
+        items.append(f(s))
+        if rng.random() < 0.3:  # overridden by the whole-session entry
+            items.append(f"{f(s)}:0x10-0x1f")
     for s, ids in skip.items():
         if ids is None:
-            items.append(f(s))
-            if rng.random() < 0.3:  # overridden by the whole-session entry
-                items.append(f"{f(s)}:0x10-0x1f")
-        else:
-            for part in em.render_ranges(rng, ids):
-                items.append(f"{f(s)}:{part}")
+            continue
+        own = [x for x in ids if not (s in members and x in shared and rng.random() < 0.9)]
+        for part in em.render_ranges(rng, own) if own else []:
+            items.append(f"{f(s)}:{part}")
     rng.shuffle(items)
+    if head and rng.random() < 0.7:
+        items = head + items  # the common part first, the per-session additions after it
+    else:
+        items = head + items
+        rng.shuffle(items)
     if len(items) > 1 and rng.random() < 0.5:  # one argument holding several blank-separated entries
         return [" ".join(items)]
     return items
+
+
+def skip_elements(skip_expr: list[str]) -> list[tuple[list[int], list[int] | None]]:
+    """the elements of a skip expression in the order written: (sessions named by the outer part, ids | None for a whole-session
+    element); read by the documented grammar (blank-separated elements, ':' between the dimensions, ',' enumerations, '-' ranges)"""
+    def ids(text: str) -> list[int]:
+        out: set[int] = set()
+        for piece in text.split(","):
+            if "-" in piece:
+                a, b = piece.split("-")
+                out.update(range(int(a, 0), int(b, 0) + 1))
+            else:
+                out.add(int(piece, 0))
+        return sorted(out)
+
+    els: list[tuple[list[int], list[int] | None]] = []
+    for el in " ".join(skip_expr).split(" "):
+        if not el:
+            continue
+        if ":" in el:
+            a, b = el.split(":")
+            els.append((ids(a), ids(b)))
+        else:
+            els.append((ids(el), None))
+    return els
+
+
+def skip_later_additions(skip_expr: list[str], skip: dict[int, list[int] | None]) -> dict[int, set[int]]:
+    """The situation 'several sessions are first named together by one element, a later element gives only some of them further
+    ids': {session S: ids which such a later element names for a session introduced together with S, not for S, and which the
+    skip map does not hold for S}.  Those ids are to be probed in S.  Only used for reach counters."""
+    together: dict[int, set[int]] = {}
+    seen: set[int] = set()
+    out: dict[int, set[int]] = {}
+    for sess, ids in skip_elements(skip_expr):
+        new = [x for x in sess if x not in seen]
+        if ids is not None:
+            for x in sess:
+                if x in new:
+                    continue
+                for sib in together.get(x, set()) - set(sess):
+                    if skip.get(sib, []) is None:
+                        continue
+                    extra = set(ids) - set(skip.get(sib) or [])
+                    if extra:
+                        out.setdefault(sib, set()).update(extra)
+            if len(new) > 1:
+                for x in new:
+                    together[x] = set(new) - {x}
+        seen.update(sess)
+    return out
+
+
+def plant_skip_group(rng: Any, skip: dict[int, list[int] | None], cand: list[int], prefer: list[int], make_ids: Any) -> tuple[list[int], list[int]] | None:
+    """two or three sessions (those to be scanned preferred) get a common block of skipped ids, and at least one but not all of them
+    further ids of their own; returns (sessions, common ids) for render_skip"""
+    pool = [x for x in dict.fromkeys(list(prefer) + list(cand)) if skip.get(x, []) is not None]
+    if len(pool) < 2:
+        return None
+    k = min(len(pool), rng.choice([2, 2, 3]))
+    first = [x for x in pool if x in prefer][:8]
+    members = rng.sample(first, min(k, len(first))) if len(first) >= 2 and rng.random() < 0.8 else rng.sample(pool, k)
+    if len(members) < 2:
+        members = rng.sample(pool, k)
+    shared = sorted(make_ids())
+    for m in members:
+        skip[m] = sorted(set(skip.get(m) or []) | set(shared))
+    extended = rng.sample(members, rng.randint(1, len(members) - 1))
+    for m in extended:
+        skip[m] = sorted(set(skip[m] or []) | set(make_ids()))
+    return sorted(members), shared
 
 
 class Window:
@@ -244,6 +419,9 @@ def gen_services_case(rng: Any) -> dict[str, Any]:
     case = gen_server_case(rng, need=[0x22] if dropouts else None)
     srv = make_server(case)
     sessions_opt, sessions = pick_sessions(rng, srv)
+    case["session_read"] = gen_session_read(rng, srv) if check and sessions and rng.random() < (0.6 if dropouts else 0.15) else {}
+    if case["session_read"]:
+        srv = make_server(case)
     skip: dict[int, list[int] | None] = {}
     if rng.random() < 0.5:
         cand = sorted(set(sessions) | set(model_of(srv)))
@@ -256,10 +434,16 @@ def gen_services_case(rng: Any) -> dict[str, Any]:
                     a = rng.choice([0, 0x10, 0x22, 0x27, 0x3E, 0x7F, 0xBF, 0xFF, rng.randrange(256)])
                     ids.update(range(a, min(256, a + rng.choice([1, 1, 4, 16, 64]))))
                 skip[s] = sorted(ids)
+    group = None
+    if rng.random() < 0.3:
+        def some_sids() -> set[int]:
+            a = rng.choice([0, 0x10, 0x22, 0x27, 0x31, 0x3E, 0x85, 0xBF, 0xFF, rng.randrange(256)])
+            return set(range(a, min(256, a + rng.choice([1, 1, 2, 4, 16]))))
+        group = plant_skip_group(rng, skip, sorted(set(sessions) | set(model_of(srv))), [x for x in sessions if x in model_of(srv)], some_sids)
     case.update({
         "kind": "services", "sessions_opt": sessions_opt, "sessions": sessions, "check_session": check,
         "scan_response_ids": rng.random() < 0.35, "reset": rng.choice([None, None, 1, 3]),
-        "skip": {str(k): v for k, v in skip.items()}, "skip_expr": render_skip(rng, skip) if skip else [],
+        "skip": {str(k): v for k, v in skip.items()}, "skip_expr": render_skip(rng, skip, group) if skip else [],
         "full": (not dropouts) and rng.random() < 0.25,
         "dropouts": sorted(rng.sample(range(1, 600), rng.randint(1, 4))) if dropouts and sessions else [],
         "mute": gen_mute(rng, srv) if rng.random() < 0.4 else {},
@@ -335,10 +519,12 @@ def check_services(ctx: Any, case: dict[str, Any]) -> None:
     sessions = list(case["sessions"])
     given = case["sessions_opt"] is not None
     ident = ("services", case["server_seed"], sorted(case["rp"].items()), case["behavior_off"], case["sessions_opt"], case["check_session"],
-             case["scan_response_ids"], case["reset"], case["skip_expr"], case["full"], case["dropouts"], sorted(mute_map(case).items()))
+             case["scan_response_ids"], case["reset"], case["skip_expr"], case["full"], case["dropouts"], sorted(mute_map(case).items()),
+             sorted((case.get("session_read") or {}).items()))
     w: dict[str, Any] = {k: case[k] for k in ("kind", "server_seed", "rp", "behavior_off", "sessions_opt", "sessions", "check_session", "scan_response_ids",
                                             "reset", "skip", "skip_expr", "full", "dropouts")}
     w["mute"] = case.get("mute") or {}
+    w["session_read"] = case.get("session_read") or {}
     mute = mute_map(case)
     if mute:
         ctx.reach("services.min-length-ecu")
@@ -363,8 +549,11 @@ def check_services(ctx: Any, case: dict[str, Any]) -> None:
         ctx.violation("services/sessions-option-parsed-differently", "the --sessions expression does not denote the generated list", {**w, "parsed": out["cfg_sessions"]})
         return
     if {int(k): v for k, v in out["cfg_skip"].items()} != skip:
+        # named here; what the scan then leaves out / probes is still judged below against the map the expression denotes
         ctx.violation("services/skip-option-parsed-differently", "the --skip expression does not denote the generated map", {**w, "parsed": out["cfg_skip"]})
-        return
+    later_additions = skip_later_additions(case["skip_expr"], skip) if case["skip_expr"] else {}
+    if any(len(sess) > 1 and ids is not None for sess, ids in skip_elements(case["skip_expr"])):
+        ctx.reach("services.skip-multi-session-element")
 
     result: dict[int, set[int]] = {}
     for s, sid in out["result"]:
@@ -433,8 +622,12 @@ def check_services(ctx: Any, case: dict[str, Any]) -> None:
         Eset = set(E)
         if S is not None and S in skip and skip[S] is not None:
             ctx.reach("services.skip-map-used")
+        if S is not None and later_additions.get(S, set()) & Eset:
+            # S was introduced by a multi-session element; a later element gives a session named with it ids that S does not skip
+            ctx.reach("services.skip-multi-session-element-then-additions.scanned")
         probes: dict[int, list[tuple[int, bytes, bytes | None, bool, bool]]] = {}
         dirty = was_dirty = False
+        reentered_after_dropout = unreadable_after_reentry = False
         tainted: set[int] = set()
         ww = {**w, "session": S}
         for i, before, q, r, delivered in wd.entries:
@@ -444,10 +637,17 @@ def check_services(ctx: Any, case: dict[str, Any]) -> None:
             if q == b"\x22\xf1\x86":
                 if r is not None and r[0] == 0x62:
                     dirty = False  # never a probe here: the scanner has been told the session, it must re-enter S or give up
+                elif before == real_S:
+                    ctx.reach("services.session-read-unanswered-in-scanned-session")
+                    if reentered_after_dropout and not unreadable_after_reentry:
+                        unreadable_after_reentry = True
+                        ctx.reach("services.dropout-recovered.session-unreadable")
+                        ctx.reach(f"services.dropout-recovered.session-unreadable.{reply_class(q, r)}")
                 continue
             if len(q) == 2 and q[0] == 0x10 and q[1] == S:
                 if r is not None and r[0] == 0x50:
                     dirty = False  # the scanner noticed the wrong session and re-entered S
+                    reentered_after_dropout = reentered_after_dropout or was_dirty
                 continue
             if is_zero_probe(q):
                 sid = q[0]
@@ -456,7 +656,7 @@ def check_services(ctx: Any, case: dict[str, Any]) -> None:
                 if before != real_S:
                     if sid == 0x3E and (case["full"] or case["reset"] is not None):
                         continue  # cyclic tester present / wait_for_ecu ping, not a probe
-                    check_due = given and case["check_session"] and sid not in probes and 0x22 in model.get(before, set())
+                    check_due = given and case["check_session"] and sid not in probes and session_read_answerable(case, model, before)
                     if check_due:
                         # the scanner reads the session before the first probe of every service id; the ECU can answer that read here
                         ctx.violation("services/probe-in-wrong-session/session-check-due", "with check-session on, the first probe of a service id was sent while the ECU was in "
@@ -550,6 +750,10 @@ def gen_ident_case(rng: Any) -> dict[str, Any]:
     case = gen_server_case(rng, need=need or None, silence_ok=False)
     srv = make_server(case)
     sessions_opt, sessions = pick_sessions(rng, srv)
+    case["session_read"] = {}
+    if check is not None and sessions and service != 0x22 and rng.random() < (0.6 if dropouts else 0.15):
+        # (scans of service 0x22 keep the readable ECU: there the probe of 0xF186 and the session read are one and the same request)
+        case["session_read"] = gen_session_read(rng, srv)
     size = rng.choice([64, 100, 256, 300, 1024])
     where = rng.choice(["0000", "f186", "ffff", "7f", "mid"])
     if where == "0000":
@@ -586,11 +790,17 @@ def gen_ident_case(rng: Any) -> dict[str, Any]:
                     a = rng.choice([start, end, max(start, end - 3), (start + end) // 2, 0xF186, rng.randint(start, max(start, end))])
                     ids.update(range(a, min(0x10000, a + rng.choice([1, 1, 2, 8, 40]))))
                 skip[s] = sorted(ids)
+    group = None
+    if rng.random() < 0.3:
+        def some_dids() -> set[int]:
+            a = rng.choice([start, end, max(start, end - 3), (start + end) // 2, rng.randint(start, max(start, end)), rng.randint(start, max(start, end))])
+            return set(range(a, min(0x10000, a + rng.choice([1, 1, 2, 8, 40]))))
+        group = plant_skip_group(rng, skip, sorted(set(sessions) | {1, 2, 3}), list(sessions), some_dids)
     n_sessions = max(1, len(sessions))
     subs = 3 if service == 0x31 else 1
     case.update({
         "kind": "identifiers", "service": service, "sessions_opt": sessions_opt, "sessions": sessions, "start": start, "end": end, "payload": payload,
-        "check_session": check, "skip": {str(k): v for k, v in skip.items()}, "skip_expr": render_skip(rng, skip) if skip else [],
+        "check_session": check, "skip": {str(k): v for k, v in skip.items()}, "skip_expr": render_skip(rng, skip, group) if skip else [],
         "skip_not_supported": rng.random() < 0.2, "full": (not dropouts) and rng.random() < 0.25,
         "dropouts": sorted(rng.sample(range(1, max(6, (end - start + 1) * subs)), rng.randint(1, 3))) if dropouts and sessions else [],
         "losses": sorted(rng.sample(range(1, max(6, (end - start + 1) * subs * n_sessions)), rng.randint(1, 4))) if rng.random() < 0.25 else [],
@@ -650,8 +860,9 @@ def check_identifiers(ctx: Any, case: dict[str, Any]) -> None:
     ambiguous = service == 0x22 and not payload and n is not None and given
     keys = ("kind", "server_seed", "rp", "behavior_off", "service", "sessions_opt", "sessions", "start", "end", "payload", "check_session", "skip", "skip_expr",
             "skip_not_supported", "full", "dropouts", "losses")
-    ident = tuple(repr(case[k]) for k in keys)
+    ident = tuple(repr(case[k]) for k in keys) + (repr(sorted((case.get("session_read") or {}).items())),)
     w: dict[str, Any] = {k: case[k] for k in keys}
+    w["session_read"] = case.get("session_read") or {}
     svc = f"service-{service:02x}"
     try:
         out = vtime.run(scan_identifiers(case))
@@ -673,9 +884,15 @@ def check_identifiers(ctx: Any, case: dict[str, Any]) -> None:
     if given and list(out["cfg_sessions"]) != sessions:
         ctx.violation("identifiers/sessions-option-parsed-differently", "the --sessions expression does not denote the generated list", {**w, "parsed": out["cfg_sessions"]})
         return
-    if {int(k): v for k, v in out["cfg_skip"].items()} != skip or out["cfg_service"] != service or (out["cfg_payload"] or b"") != payload:
+    if out["cfg_service"] != service or (out["cfg_payload"] or b"") != payload:
         ctx.violation("identifiers/option-parsed-differently", "skip map / service / payload option does not denote what was generated", {**w, "parsed": repr((out["cfg_skip"], out["cfg_service"], out["cfg_payload"]))})
         return
+    if {int(k): v for k, v in out["cfg_skip"].items()} != skip:
+        # named here; what the scan then leaves out / probes is still judged below against the map the expression denotes
+        ctx.violation("identifiers/skip-option-parsed-differently", "the --skip expression does not denote the generated map", {**w, "parsed": repr(out["cfg_skip"])[:400]})
+    later_additions = skip_later_additions(case["skip_expr"], skip) if case["skip_expr"] else {}
+    if any(len(sess) > 1 and ids is not None for sess, ids in skip_elements(case["skip_expr"])):
+        ctx.reach("identifiers.skip-multi-session-element")
 
     def pdu_for(did: int, sf: int | None) -> bytes:
         if service == 0x27:
@@ -756,6 +973,9 @@ def check_identifiers(ctx: Any, case: dict[str, Any]) -> None:
         E = expected(S)
         if S is not None and S in skip and skip[S] is not None and any(start <= d <= end_eff for d in skip[S]):
             ctx.reach("identifiers.skip-map-used")
+        if S is not None and later_additions.get(S, set()) & {d[0] for d in E}:
+            ctx.reach("identifiers.skip-multi-session-element-then-additions.scanned")
+        reentered_after_dropout = unreadable_after_reentry = False
         ww = {**w, "session": S}
         tx: dict[tuple[int, int | None], list[tuple[int, int, bytes | None, bool]]] = {}
         order: list[tuple[int, int | None]] = []
@@ -772,10 +992,17 @@ def check_identifiers(ctx: Any, case: dict[str, Any]) -> None:
                 f186_replies.append(r if delivered else None)
                 if not ambiguous and r is not None and r[0] == 0x62:
                     dirty = False  # a session check (not a probe): the scanner has been told the session
+                elif not ambiguous and before == real_S:
+                    ctx.reach("identifiers.session-read-unanswered-in-scanned-session")
+                    if reentered_after_dropout and not unreadable_after_reentry:
+                        unreadable_after_reentry = True
+                        ctx.reach("identifiers.dropout-recovered.session-unreadable")
+                        ctx.reach(f"identifiers.dropout-recovered.session-unreadable.{reply_class(q, r)}")
                 continue
             if len(q) == 2 and q[0] == 0x10:
                 if r is not None and r[0] == 0x50:
                     dirty = False  # the scanner noticed the wrong session and re-entered S
+                    reentered_after_dropout = reentered_after_dropout or (was_dirty and q[1] == real_S)
                 continue
             if len(q) == 2 and q[0] == 0x3E:
                 continue
@@ -790,7 +1017,7 @@ def check_identifiers(ctx: Any, case: dict[str, Any]) -> None:
             if d not in tx:
                 order.append(d)
             tx.setdefault(d, []).append((i, before, r, delivered))
-            if before != real_S and given and n is not None and d[0] % n == 0 and len(tx[d]) == 1 and 0x22 in out["model"].get(before, set()):
+            if before != real_S and given and n is not None and d[0] % n == 0 and len(tx[d]) == 1 and session_read_answerable(case, out["model"], before):
                 if not wrong_reported:
                     ctx.violation("identifiers/probe-in-wrong-session/session-check-due", "a session check was due before this identifier (check-session interval) and the ECU can answer it, "
                                   "yet the probe was sent while the ECU was in another session", {**ww, "identifier": d[0], "ecu_session": before, "log": em.hexlog(log[max(0, i - 6) : i + 1])})
